@@ -134,8 +134,12 @@ def check(run):
                        "if not ok: REPRODUCED('sections/options are not sorted or case is folded')\nNOT_REPRODUCED()\n")
     for k in ("canon:composeinfo.Variant", "canon:treeinfo.Variant") + (("canon:images.Images",) if run.tier == "thorough" or True else ()):
         verify.verify(run, c.E, c.contracts[k], crosscheck=False)
+    # (the two variants are inserted in a fixed order while their names are symbolic, so "first in SORTED order" below is a statement
+    # about every insertion order: a main variant picked by insertion order fails `variant_is_requested_or_first`)
     verify.verify(run, c.E, c.contracts["gen:flat:2:0"], only=("variants_lists_sorted_top_level", "tree_variants_option_sorted_like_general",
-                                                               "arch_platforms_mirror_tree"), crosscheck=False)
+                                                               "arch_platforms_mirror_tree", "variant_is_requested_or_first"), crosscheck=False)
+    verify.verify(run, c.E, c.contracts["gen:paths-pkg:2:0"], only=("variant_is_requested_or_first", "packagedir_repository_of_main_variant"),
+                  crosscheck=False)
     # canon.repeat: writers leave the object's content unchanged (so the n-th dump equals the first)
     for k in ("ser:composeinfo.Compose", "ser:composeinfo.Release", "ser:images.Image", "ser:treeinfo.Release", "ser:treeinfo.Media"):
         verify.verify(run, c.E, c.contracts[k], only=("object_unchanged",), crosscheck=False)
